@@ -180,7 +180,8 @@ def sites_of(fn):
         elif t["k"] in ("call", "tailcall"):
             cl = classify_call(fn, t)
             if cl:
-                out.append({"kind": cl[0], "detail": cl[1], "cond": cl[2], "bb": bi, "line": t["line"], "mac": t.get("mac", []), "callee": callee_def(t)})
+                out.append({"kind": cl[0], "detail": cl[1], "cond": cl[2], "bb": bi, "line": t["line"], "mac": t.get("mac", []), "callee": callee_def(t),
+                            "sig": _producer_sig(fn, t)})
     # ordinals
     counts = {}
     for s in out:
@@ -189,6 +190,33 @@ def sites_of(fn):
         counts[k] = s["ord"] + 1
         s["key"] = "%s::%s::%s#%d" % (fn.path, s["kind"], s["detail"], s["ord"])
     return out
+
+
+def _producer_sig(fn, t):
+    """what the call operates on: the callees that produced its first argument (through moves, references and `?`), as text.
+    Used only to recognise a reviewed site again after it moved inside its function (closure <-> body)."""
+    from .flow import origins
+    if not t.get("args"):
+        return ""
+    names = set()
+    seen = set()
+    work = [t["args"][0]]
+    g = 0
+    while work and g < 12:
+        g += 1
+        o = work.pop()
+        for d, p in origins(fn, o):
+            if d[0] == "call" and d[1] not in seen:
+                seen.add(d[1])
+                ct = fn.term(d[1])
+                nm = ct["callee"].get("name") or "?"
+                if nm in ("branch", "as_ref", "as_mut", "deref", "deref_mut", "clone", "borrow", "borrow_mut", "into", "from_residual") and ct["args"]:
+                    work.append(ct["args"][0])
+                else:
+                    names.add((ct["callee"].get("def") or nm).rsplit("::", 1)[-1])
+            elif d[0] == "param":
+                names.add("param:" + ".".join(str(x) for x in p))
+    return "|".join(sorted(names))
 
 
 def _is_box_pointer(fn, l):
@@ -310,6 +338,20 @@ def run_census(ctx, rule, root_defs, F, reviews, prop_id, label, only=None, extr
         if moved is not None:
             rep.ob(rule, key, True, "", where, how="reviewed argument of %s carried over (the site moved); guard %s re-established here: %s" % (moved[0], moved[2], moved[1]["reason"]))
             continue
+        # the same operation on the result of the same callee, moved inside its function (closure <-> body): what the reviewed
+        # argument is about -- which value is unwrapped / indexed -- is unchanged
+        if shp[0] in ("extern", "unsafe") and s.get("sig") and not s["sig"].startswith("param:"):
+            top_new = _top_path(F, b)
+            for k2, rv2 in reviews.items():
+                if rv2.get("guard") or k2 in all_keys or _shape(k2) != shp or _key_top(k2) != top_new:
+                    continue
+                if rv2.get("sig") and rv2["sig"] == s["sig"]:
+                    moved = (k2, rv2)
+                    break
+            if moved is not None:
+                rep.ob(rule, key, True, "", where, how="reviewed argument of %s carried over (the same %s of the result of %s, moved within the function): %s" % (
+                    moved[0], shp[1], s["sig"], moved[1]["reason"]))
+                continue
         # magnitude arguments about an addition ("counts characters of the text", "bounded by the token count") do not depend on the
         # control context of the site: they are carried over when the same addition (same operand description) reappears in the same
         # function (closure <-> loop body) or in a new helper that only that function calls, and the reviewed site is gone
@@ -377,7 +419,7 @@ PORTABLE_GUARDS = {
     "operator-table-total", "writeval-never-errs", "push-rhs-arms", "to-digit-radix-const", "radix-range-checked",
     "resize-after-try-reserve", "reserve-diff-nonneg", "array-after-coerce", "compare-same-kind", "take-first-len-1",
     "listbuilder-nonempty", "offset-from-guarded", "compute-value-no-dot", "as-text-ascii", "parameter-seps-capacity",
-    "inc-null-replaced", "capitalized-callback-infallible",
+    "inc-null-replaced", "capitalized-callback-infallible", "join-elements-checked", "emplace-var-entry", "greedy-suffix-peeked",
 }
 
 
